@@ -2,6 +2,7 @@ import CacheVerif.Props.C01
 import CacheVerif.Props.C11
 import CacheVerif.Proofs.ProtoData
 import CacheVerif.Proofs.DeepSource
+import CacheVerif.Proofs.CacheWalk
 /-!
 # C07 — Range/Items visit each qualifying entry once, never a phantom or expired one
 
@@ -106,6 +107,75 @@ theorem C07_source_items (s : Cache.St K V) (a : TTL.St K V) (h : Sim s a) (T : 
       ∃ π : List (K × Item V), π.Perm a.live ∧ r.out = .items (π.map fun p => (p.1, p.2.v)) := by
   obtain ⟨π, hp, ho⟩ := C07_cache_items s a h
   exact ⟨_, _, DeepSource.step s _ T hT, π, hp, ho⟩
+
+/-! ### Cache-level `Range` / `Items` concurrent with writers
+
+At the cache layer `Range` is a reader: it reads the clock once and hands the underlying map's `Range` a closure that
+skips entries expired at that instant and calls the user's visitor on the others.  What the map hands that closure
+while other goroutines write is the business of C07 at map level (M4a, below: at most once per key, only pairs the
+key really held during the traversal, every pair that stayed put).  `MapRangeOK` states that guarantee for the pairs
+`π` handed over and the contents `H` the map went through during the traversal; the theorem derives the property for
+the cache from it, for **the text of `Range` in both files** (`deep_range_handed`: the interpreter run on the
+generated method body with the map handing over `π`). -/
+
+/-- the map-level guarantee (C07 for Map / MapOf) about the pairs `π` a traversal hands to its visitor, `H` being the
+contents of the map during the traversal -/
+structure MapRangeOK (H : List (AMap K (Item V))) (π : List (K × Item V)) : Prop where
+  /-- at most once per key -/
+  once : (π.map (·.1)).Nodup
+  /-- only a value the key really held at some moment of the traversal -/
+  real : ∀ p ∈ π, ∃ m ∈ H, m.get p.1 = some p.2
+  /-- every binding that stayed put for the whole traversal -/
+  complete : ∀ k i, (∀ m ∈ H, m.get k = some i) → (k, i) ∈ π
+
+/-- **C07, cache level, any concurrent history.**  With the map-level guarantee for the pairs handed over, `Range` of
+either file calls the user's visitor (1) at most once per key, (2) only with a value that was stored under that key
+at some moment of the traversal and was unexpired when the traversal began, (3) - if the visitor never stops - on
+every entry that stays present for the whole traversal and was unexpired when it began; and it modifies nothing. -/
+theorem C07_cache_conc (s : Cache.St K V) (f : K → V → Bool) (H : List (AMap K (Item V))) (π : List (K × Item V))
+    (hok : MapRangeOK H π) :
+    ∃ visits,
+      Deep.deepStep (Deep.twinMapHanded π) s (.range f) = some (s, { out := .visits visits }) ∧
+      Deep.deepStep (Deep.twinMapOfHanded π) s (.range f) = some (s, { out := .visits visits }) ∧
+      (visits.map (·.1)).Nodup ∧
+      (∀ k v, (k, v) ∈ visits → ∃ i, i.v = v ∧ (∃ m ∈ H, m.get k = some i) ∧ TTL.expired i.e s.now = false) ∧
+      ((∀ k v, f k v = true) → ∀ k i, (∀ m ∈ H, m.get k = some i) → TTL.expired i.e s.now = false → (k, i.v) ∈ visits) := by
+  refine ⟨Cache.walk s.now f π, DeepCache.deep_range_handed s f π, ?_, ?_, ?_, ?_⟩
+  · rw [DeepCacheOf.deep_range_handed, Proofs.Twin.walk_eq]
+  · exact List.Nodup.sublist (Proofs.CacheWalk.walk_keys_sublist s.now f π) hok.once
+  · intro k v hv
+    obtain ⟨i, hi, hv', hx⟩ := Proofs.CacheWalk.mem_walk s.now f π k v hv
+    exact ⟨i, hv'.symm, hok.real (k, i) hi, by rw [← Proofs.LeafCache.item_expiredWithNow_eq]; exact hx⟩
+  · intro hf k i hst hx
+    exact Proofs.CacheWalk.walk_complete s.now f hf π k i (hok.complete k i hst)
+      (by rw [Proofs.LeafCache.item_expiredWithNow_eq]; exact hx)
+
+/-- `Items` under the same guarantee: exactly one pair per handed key that was unexpired when the call began -/
+theorem C07_cache_items_conc (s : Cache.St K V) (H : List (AMap K (Item V))) (π : List (K × Item V)) (hok : MapRangeOK H π) :
+    ∃ l, Deep.deepStep (Deep.twinMapHanded π) s .items = some (s, { out := .items l }) ∧
+      (l.map (·.1)).Nodup ∧
+      (∀ k i, (∀ m ∈ H, m.get k = some i) → TTL.expired i.e s.now = false → (k, i.v) ∈ l) ∧
+      (∀ k v, (k, v) ∈ l → ∃ i, i.v = v ∧ (∃ m ∈ H, m.get k = some i) ∧ TTL.expired i.e s.now = false) := by
+  refine ⟨Cache.walk s.now (fun _ _ => true) π, DeepCache.deep_items_handed s π, ?_, ?_, ?_⟩
+  · exact List.Nodup.sublist (Proofs.CacheWalk.walk_keys_sublist s.now _ π) hok.once
+  · intro k i hst hx
+    exact Proofs.CacheWalk.walk_complete s.now _ (fun _ _ => rfl) π k i (hok.complete k i hst)
+      (by rw [Proofs.LeafCache.item_expiredWithNow_eq]; exact hx)
+  · intro k v hv
+    obtain ⟨i, hi, hv', hx⟩ := Proofs.CacheWalk.mem_walk s.now _ π k v hv
+    exact ⟨i, hv'.symm, hok.real (k, i) hi, by rw [← Proofs.LeafCache.item_expiredWithNow_eq]; exact hx⟩
+
+/-- the guarantee is satisfiable (a traversal of a map nobody writes to): not vacuous -/
+example : MapRangeOK [([("a", ⟨1, 0⟩), ("b", ⟨2, 5⟩)] : AMap String (Item Nat))] [("a", ⟨1, 0⟩), ("b", ⟨2, 5⟩)] :=
+  ⟨by decide, by decide, by
+    intro k i h
+    have := h _ (List.mem_singleton.mpr rfl)
+    simp only [AMap.get_cons] at this
+    by_cases h1 : "a" = k
+    · subst h1; simp at this; subst this; simp
+    · by_cases h2 : "b" = k
+      · subst h2; simp at this; subst this; simp
+      · simp [h1, h2] at this⟩
 
 /-- a nil visitor is ignored -/
 theorem C07_cache_range_nil (s : Cache.St K V) : Cache.step s .rangeNil = (s, { out := .unit }) := rfl
